@@ -139,6 +139,25 @@ var c07Ops = []corruption{
 		out = append(out, cloneJSON(a[i]))
 		return append(out, a[i+1:]...), true
 	}},
+	{"replace-with-sibling", func(resp any, pos, arg int) (any, bool) {
+		// one batch element answers with a copy of another element's result (under its own id):
+		// the count is right, one request is answered twice and one not at all
+		a, ok := asArr(resp)
+		if !ok || len(a) < 2 {
+			return resp, false
+		}
+		i, j := pos%len(a), (pos+1+arg%(len(a)-1))%len(a)
+		mi, ok1 := asObj(a[i])
+		mj, ok2 := asObj(a[j])
+		if !ok1 || !ok2 {
+			return resp, false
+		}
+		c := cloneJSON(mj).(map[string]any)
+		c["id"] = mi["id"]
+		out := append([]any{}, a...)
+		out[i] = c
+		return out, true
+	}},
 	{"swap-elements", func(resp any, pos, arg int) (any, bool) {
 		a, ok := asArr(resp)
 		if !ok || len(a) < 2 {
@@ -664,6 +683,19 @@ func c07Judge(ss *servedSet, f *glf.Filter, start, limit uint64, blocks []eth.Bl
 			}
 			if all {
 				must = fmt.Sprintf("everything served for block %d names block hash %s, the block was served with hash %v", n, hs[0], sb["hash"])
+			}
+		}
+	}
+	if must == "" && f.UseBlocks && f.UseReceipts {
+		// a block served with transactions for which no receipt at all was served: its
+		// receipts are a missing result, whatever else the batch held
+		have := map[uint64]bool{}
+		for _, r := range ss.receipts {
+			have[pu(r["blockNumber"])] = true
+		}
+		for n, sb := range ss.blocks {
+			if txs, _ := asArr(sb["transactions"]); inRange(n) && len(txs) > 0 && !have[n] {
+				must = fmt.Sprintf("block %d was served with %d transactions and no receipt was served for it", n, len(txs))
 			}
 		}
 	}
